@@ -32,7 +32,7 @@ pub fn def() -> PropDef {
         ],
         run_shard,
         replay,
-        describe: None,
+        describe: Some(describe),
         health,
         exhaustive: None,
     }
@@ -485,6 +485,12 @@ fn run_shard(ctx: &ShardCtx, acc: &mut Acc) {
         check_case(&c, acc)
     });
     let _ = (Tier::Quick, WordUse::Bytes);
+}
+
+/// the case a crashed shard was working on, rebuilt from its choices
+fn describe(_stream: &str, choices: &[u32]) -> Value {
+    let mut ch = Chooser::new(choices);
+    json!({ "case": gen_case(&mut ch) })
 }
 
 fn replay(case: &Value, acc: &mut Acc) -> CaseResult {
